@@ -92,6 +92,10 @@ CLAIMED["C18"] = ("unsafe-operation inventory against a frozen obligation table;
     "byte->char map sizing/filling and argument provenance, pattern/weight parallel arrays, state vector sizing/index forms, token-id provenance, wsconst ranges, "
     "UTF-8 validity of the as_mut_vec region (complete), to_int_unchecked guards, unsafe-only deserialisation, non-empty sentence. The accumulated-offset sites of two "
     "filters and daachorse's match contract are assumptions, listed in the evidence.", "DESIGN.md §4 C18")
+CLAIMED["C13"] = ("configuration matrix: the real build type-checks all 33 feature configurations under the exporter; per-function canonical MIR fingerprints; per-feature influence confinement",
+    "Complete (by bit-identity of the compiler's MIR) for: `std` cannot change any result; `tag-prediction` cannot change boundary scoring; `charwise-pma`, "
+    "`cache-type-score`, `fix-weight-length`, `portable-simd` are confined to their declared scorer/weight-vector functions. Inside the influence sets only twin forms "
+    "are checked; equivalence of the alternative algorithms (table vs automaton, SIMD vs scalar) is numeric and not decided.", "DESIGN.md §4 C13")
 NOT_YET = {}
 
 def main():
